@@ -148,6 +148,23 @@ def docs(seed, tier, quick=3000, thorough=200000, **kw):
     return gen.docs(seed, size(tier, quick, thorough), **kw)
 
 
+def statement_corr(prop):
+    """the formal statement Cxx_statement of coq/main/Props.v (its boolean checker, extracted) evaluated on the
+    implementation's own tree dump; a rejected tree is a violation of the property on that input"""
+    def f(cases):
+        ls = lines_of(cases)
+        a = run.harness("full", ls)
+        b = run.model("chk", [strip_refs(x) + "\t" + c.hex() for x, (c, _) in zip(a, cases)])
+        out = []
+        for i, (x, y) in enumerate(zip(a, b)):
+            if not is_obs(x):
+                out.append((i, x[:300], "", "implementation did not produce a tree"))
+            elif ("%s=1" % prop) not in y:
+                out.append((i, x[:1500], y, "Props.%s_statement's checker rejects the implementation's tree" % prop))
+        return out
+    return f
+
+
 class TreeCheck(Check):
     rule = DOC_RULE
     proj = staticmethod(ident)
@@ -155,7 +172,8 @@ class TreeCheck(Check):
 
     def jobs(self, seed, tier):
         cases = [(d, "") for d in docs(seed, tier)]
-        return [Job("documents", cases, corr=two_sided("full", "full", self.proj, self.what), judge_mode="judge:" + self.prop)]
+        return [Job("documents", cases, corr=two_sided("full", "full", self.proj, self.what), judge_mode="judge:" + self.prop),
+                Job("formal statement on the implementation's trees", cases, corr=statement_corr(self.prop), corr_is_spec=True)]
 
 
 # ---- C01 -----------------------------------------------------------------------------------------
@@ -185,6 +203,7 @@ class C01(Check):
             return out
         sched = [(d, re.sub(r";fault=[^;]*", "", p)) for d, p in schedules(seed, [d for d, _ in cases[: max(600, len(cases) // 3)]])]
         return [Job("root-block headers", cases, corr=corr, judge_mode="judge:C01"),
+                Job("formal statement on the implementation's trees", cases, corr=statement_corr("C01"), corr_is_spec=True),
                 Job("streaming entry point under read schedules", sched, judge_mode="judge:C01")]
 
 
@@ -315,7 +334,7 @@ class C10(Check):
     def jobs(self, seed, tier):
         ds = docs(seed, tier, quick=3000, thorough=150000) + raw_docs(seed, size(tier, 1500, 50000))
         cases = [(d, str((i * 7 + seed) % 30)) for i, d in enumerate(ds)]
-        return [Job("tree -> HTML", cases, corr=tree_render_corr("html"), judge_mode="judge:C10")]
+        return [Job("tree -> HTML", cases, corr=tree_render_corr("html"), judge_mode="judge:C10", corr_is_spec=True)]
 
 
 reg(C10("C10"))
@@ -362,6 +381,29 @@ def raw_docs(seed, n):
     return out
 
 
+def filter_fam_corr(cases):
+    """coq/filter's filter (the function filter_relaxed, filter_lt_ok and no_rejected_start are proved about) against the
+    implementation's filterRaw through the hook; also the theorem's conclusion evaluated by the extracted tokenizer
+    fragment: no start tag of the filtered output is rejected by the predicate"""
+    ls = lines_of(cases)
+    a = run.harness("filterraw", ls)
+    b = run.run("drvfilter", "x", ls)
+    gfm = {"title", "textarea", "style", "xmp", "iframe", "noembed", "noframes", "script", "plaintext"}
+    sets = {"gfm": gfm, "set1": gfm | {"b", "div", "a"}, "set2": gfm | {"em", "p", "pre", "code"}}
+    out = []
+    for i, (x, y) in enumerate(zip(a, b)):
+        yp = y.split("\t")
+        if x != yp[0]:
+            out.append((i, x, yp[0], "filterRaw: coq/filter model vs implementation"))
+            continue
+        pred = cases[i][1] or "gfm"
+        tags = [t for t in (yp[1].split(",") if len(yp) > 1 and yp[1] else [])]
+        rejected = [t for t in tags if (pred == "all") or (pred in sets and t in sets[pred])]
+        if rejected:
+            out.append((i, x, ",".join(rejected), "tokenizer fragment sees a rejected start tag in the filtered output"))
+    return out
+
+
 class C17(Check):
     rule = "raw-HTML stressors (comments, CDATA, declarations, processing instructions, stray '<', case mixes, raw-text element names) as token soup, plus the general document stream; predicates GFM, reject-all, reject-none and two name sets containing the raw-text elements"
     obligations = [("filter", "Filter", "filter_relaxed"), ("filter", "Filter", "filter_none_id"), ("filter", "Filter", "filter_lt_ok"), ("filter", "TokProof", "start_tag_origin"),
@@ -377,6 +419,7 @@ class C17(Check):
         jcases = [(d, "") for d in ds]
         return [Job("tree -> filtered HTML", cases, corr=tree_render_corr("html")),
                 Job("filterRaw on fragments", fcases, corr=two_sided("filterraw", "filterraw", ident, "filterRaw output")),
+                Job("filterRaw on fragments (model of coq/filter)", fcases, corr=filter_fam_corr),
                 Job("documents x predicates", jcases, judge_mode="judge:C17")]
 
 
@@ -706,7 +749,24 @@ class C15(Check):
             b = subprocess.run([os.path.join(build.BIN, "drv"), "class"], input=b"00\n", stdout=subprocess.PIPE).stdout.decode()
             al, bl = [x for x in a.split("\n") if x], [x for x in b.split("\n") if x]
             return [(0, x, y, "classifier table row") for x, y in zip(al, bl) if x != y][:1] + ([(0, str(len(al)), str(len(bl)), "table size")] if len(al) != len(bl) else [])
+        def fam_corr(cases):
+            """the recognizer models of coq/recog (the ones the ATX and thematic-break theorems are proved about) against the
+            implementation; the ATX model leaves out the escaped-trailing-blank rule (known finding D22), so lines on which
+            only that rule makes a difference are skipped"""
+            ls = lines_of(cases)
+            a = run.harness("recog", ls)
+            b = run.run("drvrecog", "x", ls)
+            out = []
+            for i, (x, y) in enumerate(zip(a, b)):
+                xs = " ".join(x.split(" ")[:2])
+                if xs != y:
+                    c = cases[i][0]
+                    if y.split(" ")[0] == xs.split(" ")[0] and re.search(rb"\\[ \t]", c):
+                        continue
+                    out.append((i, xs, y, "thematic break / ATX heading: coq/recog model vs implementation"))
+            return out
         return [Job("lines", lines, corr=two_sided("recog", "recog", ident, "recognizer results"), judge_mode="judge:C15"),
+                Job("lines (models of coq/recog)", lines, corr=fam_corr),
                 Job("uri", uris, corr=two_sided("uri", "uri", ident, "NormalizeURI"), judge_mode="judge:C15uri"),
                 Job("email", mails, corr=two_sided("email", "email", ident, "parseEmail/IsEmailAddress"), judge_mode="judge:C15email"),
                 Job("classifier table (256 bytes, exhaustive)", [(b"\x00", "")], corr=class_corr, judge_mode="judge:C15class", nontrivial=lambda c: True)]
